@@ -11,8 +11,7 @@ pub const REPO_DIR: &str = "/repo";
 
 // ---------------------------------------------------------------- PRNG
 
-#[derive(Clone)]
-pub struct Rng(pub u64);
+pub struct Rng(pub std::cell::Cell<u64>);
 
 pub fn splitmix(mut z: u64) -> u64 {
     z = z.wrapping_add(0x9E3779B97F4A7C15);
@@ -30,51 +29,24 @@ pub fn hash_str(s: &str) -> u64 {
     splitmix(h)
 }
 
+/// All methods take &self (state in a Cell) so that `f(rng, rng.below(3))` and
+/// `self.g(self.rng.below(3))` type-check.
 impl Rng {
-    pub fn new(seed: u64, stream: &str, k: u64) -> Rng {
-        Rng(splitmix(splitmix(seed ^ hash_str(stream)).wrapping_add(k.wrapping_mul(0xA24BAED4963EE407))))
+    pub fn from_seed(s: u64) -> Rng {
+        Rng(std::cell::Cell::new(s))
     }
-    pub fn next(&mut self) -> u64 {
-        self.0 = self.0.wrapping_add(0x9E3779B97F4A7C15);
-        let mut z = self.0;
+    pub fn new(seed: u64, stream: &str, k: u64) -> Rng {
+        Rng::from_seed(splitmix(splitmix(seed ^ hash_str(stream)).wrapping_add(k.wrapping_mul(0xA24BAED4963EE407))))
+    }
+    pub fn next(&self) -> u64 {
+        let st = self.0.get().wrapping_add(0x9E3779B97F4A7C15);
+        self.0.set(st);
+        let mut z = st;
         z = (z ^ (z >> 30)).wrapping_mul(0xBF58476D1CE4E5B9);
         z = (z ^ (z >> 27)).wrapping_mul(0x94D049BB133111EB);
         z ^ (z >> 31)
     }
     /// uniform in 0..n (n > 0)
-    pub fn below(&mut self, n: usize) -> usize {
-        (self.next() % (n as u64)) as usize
-    }
-    pub fn range(&mut self, lo: usize, hi_incl: usize) -> usize {
-        lo + self.below(hi_incl - lo + 1)
-    }
-    pub fn chance(&mut self, num: usize, den: usize) -> bool {
-        self.below(den) < num
-    }
-    pub fn pick<'a, T>(&mut self, xs: &'a [T]) -> &'a T {
-        &xs[self.below(xs.len())]
-    }
-    pub fn ps(&mut self, xs: &[&'static str]) -> &'static str {
-        xs[self.below(xs.len())]
-    }
-    pub fn shuffle<T>(&mut self, xs: &mut [T]) {
-        for i in (1..xs.len()).rev() {
-            let j = self.below(i + 1);
-            xs.swap(i, j);
-        }
-    }
-}
-
-/// Same generator behind a Cell, so that `self.f(self.rng.below(3))` type-checks in builders.
-pub struct CRng(pub std::cell::Cell<u64>);
-
-impl CRng {
-    pub fn next(&self) -> u64 {
-        let mut r = Rng(self.0.get());
-        let v = r.next();
-        self.0.set(r.0);
-        v
-    }
     pub fn below(&self, n: usize) -> usize {
         (self.next() % (n as u64)) as usize
     }
@@ -97,6 +69,8 @@ impl CRng {
         }
     }
 }
+
+pub type CRng = Rng;
 
 // ---------------------------------------------------------------- context
 
@@ -215,7 +189,7 @@ impl Acc {
 /// Run `n` cases of workload `name` on the worker pool.  Case k gets its own PRNG stream.
 pub fn run_workload<F>(ctx: &Ctx, acc: &mut Acc, name: &str, n: u64, f: F)
 where
-    F: Fn(u64, &mut Rng, &mut Acc) + Sync,
+    F: Fn(u64, &Rng, &mut Acc) + Sync,
 {
     if let Some((w, k)) = &ctx.replay {
         if w != name {
@@ -224,8 +198,8 @@ where
         let mut a = Acc::default();
         a.cur_workload = name.to_string();
         a.cur_k = *k;
-        let mut rng = Rng::new(ctx.seed, &format!("{}/{}", ctx.prop, name), *k);
-        f(*k, &mut rng, &mut a);
+        let rng = Rng::new(ctx.seed, &format!("{}/{}", ctx.prop, name), *k);
+        f(*k, &rng, &mut a);
         acc.merge(a);
         return;
     }
@@ -243,8 +217,8 @@ where
                         break;
                     }
                     a.cur_k = k;
-                    let mut rng = Rng::new(ctx.seed, &format!("{}/{}", ctx.prop, name), k);
-                    f(k, &mut rng, &mut a);
+                    let rng = Rng::new(ctx.seed, &format!("{}/{}", ctx.prop, name), k);
+                    f(k, &rng, &mut a);
                 }
                 out.lock().unwrap().push(a);
             });
@@ -260,6 +234,7 @@ where
 
 thread_local! {
     static LAST_PANIC: RefCell<Option<(String, String)>> = RefCell::new(None);
+    static IN_GUARD: std::cell::Cell<u32> = std::cell::Cell::new(0);
 }
 
 pub fn install_silent_panic_hook() {
@@ -275,6 +250,9 @@ pub fn install_silent_panic_hook() {
             .location()
             .map(|l| format!("{}:{}", l.file(), l.line()))
             .unwrap_or_default();
+        if IN_GUARD.with(|g| g.get()) == 0 {
+            eprintln!("harness panic (not inside a guarded call): {} at {}", msg, loc);
+        }
         LAST_PANIC.with(|p| *p.borrow_mut() = Some((msg, loc)));
     }));
 }
@@ -282,7 +260,10 @@ pub fn install_silent_panic_hook() {
 /// Run f, catching panics.  Err((message, location)).
 pub fn guarded<T, F: FnOnce() -> T + std::panic::UnwindSafe>(f: F) -> Result<T, (String, String)> {
     LAST_PANIC.with(|p| *p.borrow_mut() = None);
-    match std::panic::catch_unwind(f) {
+    IN_GUARD.with(|g| g.set(g.get() + 1));
+    let r = std::panic::catch_unwind(f);
+    IN_GUARD.with(|g| g.set(g.get() - 1));
+    match r {
         Ok(v) => Ok(v),
         Err(_) => Err(LAST_PANIC
             .with(|p| p.borrow_mut().take())
@@ -460,4 +441,13 @@ pub fn trunc(s: &str, n: usize) -> String {
         }
         format!("{}…[{} bytes]", &s[..e], s.len())
     }
+}
+
+/// a window of `s` starting a little before byte `d`, cut at char boundaries
+pub fn around(s: &str, d: usize, before: usize, len: usize) -> String {
+    let mut a = d.saturating_sub(before).min(s.len());
+    while a > 0 && !s.is_char_boundary(a) {
+        a -= 1;
+    }
+    trunc(&s[a..], len)
 }
